@@ -65,6 +65,17 @@ def value_alphabet(w, K, shift=0.0):
     for v in (-40 * w, 40 * w):
         if v not in vals:
             vals.append(v)
+    # rounding-sensitive grid points: exact multiples k*w (+shift) whose quotient (v - shift) / w does NOT
+    # floor to k (e.g. 4.3 with width 0.1 -> 42.99999999999999); found by scanning, at most 4 per sign
+    for sign in (1, -1):
+        found = 0
+        for k in range(7, 400):
+            g = sign * k * w + shift
+            if math.floor((g - shift) / w) != sign * k and g not in vals:
+                vals.append(g)
+                found += 1
+                if found >= 4:
+                    break
     return vals
 
 
